@@ -61,13 +61,26 @@ let () =
     | [root; tree] ->
         let root = str_ root in
         let l = list_ node_ tree in
-        let cmd4 (((n, p), r), a) = List [of_str n; of_str p; of_str r; of_bool a] in
+        (* the file path is a byte string that need not be UTF-8: printed in hex, the python side
+           applies to_string_lossy before comparing with CommandInfo.file_path *)
+        let hex l = Atom (String.concat "" (List.map (fun c -> Printf.sprintf "%02x" (Char.code c)) l)) in
+        let cmd4 (((n, p), r), a) = List [of_str n; hex p; of_str r; of_bool a] in
         List [of_bool (M.c03_layout_ok l);
               of_opt (of_list cmd4) (Some (M.c03_analyze root l));
               of_opt of_pairs (Some (M.c03_wrappers root l));
               of_pairs (M.c03_spec l);
               of_list (of_list of_str) (M.c03_spec_files l)]
     | _ -> failwith "c03-model: bad case");
+  (* (root ((node ...) ...)) -> ((layout_ok model-pairs spec-pairs) ...): one entry per run of a
+     build-script history, starting from an empty output directory *)
+  Registry.register "history" (fun s ->
+    match list s with
+    | [root; trees] ->
+        let root = str_ root in
+        let ls = list_ (list_ node_) trees in
+        let ms = M.c03_history root ls in
+        List (List.map2 (fun l m -> List [of_bool (M.c03_layout_ok l); of_pairs m; of_pairs (M.c03_spec l)]) ls ms)
+    | _ -> failwith "c03-history: bad case");
   (* (expected-pairs model-pairs? commands.ts-text) -> (parsed? wrappers oracle_ok corr) ;
      text "" stands for a file that was not written *)
   Registry.register "judge" (fun s ->
